@@ -498,6 +498,12 @@ func Generate(seed uint64, prop, tier string) *Plan {
 		if r.Chance(1, 25) {
 			p.Stop.Source = "boot"
 		}
+		if prop == "C06" && r.Chance(1, 15) && p.Stop.Source != "boot" && p.Stop.Source != "tick" && c.Network == "tcp" && c.Listeners == 0 {
+			// an older engine under the same address goes away first; this one is then
+			// stopped through the package-level Stop
+			c.Sibling, c.ReusePort = true, true
+			p.Stop.Source = "gnet.Stop"
+		}
 		if prop == "C06" && nconn > 0 && r.Chance(1, 30) && p.Stop.Source != "boot" && p.Stop.Source != "tick" {
 			// shutdown under sustained load: one application goroutine keeps writing
 			// asynchronously to a connection (whose peer reads everything) until Run returns
